@@ -66,8 +66,11 @@ namespace fs
         }
         uint64_t get_length(uint64_t i) const
         {
-            assert(i < n - 1);
-            return key_points[i+1] - key_points[i];
+            // iterators of aligned_parts() / all_parts() may be positioned on the
+            // end index (n - 1) when the range lies in the last block; there is
+            // no block there, and key_points[n] must not be read
+            assert(i <= n - 1);
+            return (i < n - 1) ? key_points[i+1] - key_points[i] : 0;
         }
     };
 }
